@@ -1,0 +1,7 @@
+//go:build !verif
+
+package watcher
+
+func verifWatch(_ string, _ <-chan bool, _ func()) (bool, error) {
+	return false, nil
+}
